@@ -64,6 +64,7 @@ impl<'i, 't, 'a> StepParser<'i, 't, 'a> {
         loop {
             // (comments are skipped here, so that the position is the start of the token itself)
             let position = self.position();
+            let start = self.parser.position();
             let token = self
                 .parser
                 .next_including_whitespace_and_comments()
@@ -71,7 +72,12 @@ impl<'i, 't, 'a> StepParser<'i, 't, 'a> {
             if let Token::Comment(_) = token {
                 continue;
             }
-            return Ok(StepToken { token, position });
+            let raw = Some(self.parser.slice_from(start));
+            return Ok(StepToken {
+                token,
+                position,
+                raw,
+            });
         }
     }
 
@@ -88,6 +94,8 @@ impl<'i, 't, 'a> StepParser<'i, 't, 'a> {
 pub(crate) struct StepToken<'i> {
     pub(crate) token: Token<'i>,
     pub(crate) position: error::Position,
+    /// The source text of the token (`None` for a token that was not read from the source).
+    pub(crate) raw: Option<&'i str>,
 }
 
 impl<'i> Deref for StepToken<'i> {
@@ -100,11 +108,19 @@ impl<'i> Deref for StepToken<'i> {
 
 impl<'i> StepToken<'i> {
     pub(crate) fn wrap(token: Token<'i>, position: error::Position) -> Self {
-        Self { token, position }
+        Self {
+            token,
+            position,
+            raw: None,
+        }
     }
 
     pub(crate) fn wrap_at(token: Token<'i>, other: &Self) -> Self {
         let position = other.position.clone();
-        Self { token, position }
+        Self {
+            token,
+            position,
+            raw: None,
+        }
     }
 }
